@@ -226,6 +226,10 @@ func (g *Gen) Generate() {
 		for _, c := range g.FC.Requires {
 			g.assumeClause(env, c, "true")
 		}
+		for _, c := range g.FC.Captured {
+			g.assumeClause(env, c, "true")
+			g.Assumed["captured-variable precondition of "+g.FnName()+" (established where the closure is created, not re-checked at calls): "+strings.TrimSpace(c.Text)] = true
+		}
 	}
 	g.assumeStructInvs(entry, "true")
 	// blocks
@@ -446,7 +450,12 @@ func (g *Gen) bindLoopSpecs() {
 	}
 	for k, spec := range g.FC.Loops {
 		if k < 0 || k >= len(g.loopList) {
-			g.unsupported("UNBOUND-CONTRACT: %s has no loop %d", g.FnName(), k)
+			// the loop the invariants were written for is gone: the facts they established are no longer established
+			if g.mode.Contracts {
+				for i, c := range spec.Invariants {
+					g.oblige("inv-init", fmt.Sprintf("loop%d[%d] %s", k, i, c.Text), c.Text+" (loop no longer exists)", "true", "false", g.Fn.Pos())
+				}
+			}
 			continue
 		}
 		g.loopList[k].spec = spec
@@ -511,6 +520,9 @@ func (g *Gen) enterLoop(li *loopInfo, h Heap, preds []*ssa.BasicBlock, conds []s
 		g.S.declare(n, g.compSort[c])
 		if c == "ALLOC" {
 			g.S.assert(fmt.Sprintf("(forall ((r Ref)) (! (=> (select %s r) (select %s r)) :pattern ((select %s r))))", g.hget(h, c), n, n))
+			if init := g.initSym(c); init != g.hget(h, c) {
+				g.S.assert(fmt.Sprintf("(forall ((r Ref)) (! (=> (select %s r) (select %s r)) :pattern ((select %s r))))", init, n, n))
+			}
 			g.S.assert(not(sel(n, "null")))
 		}
 		hh[c] = n
